@@ -1345,6 +1345,18 @@ pub fn run_beh<A: Adapter>(beh: &Beh) -> Obs {
             return obs;
         }
     };
+    // the verifier's key may come from ANOTHER trim of the same parameters (keys from the same parameters
+    // interoperate): same hiding bound and bound list, other supported degree
+    if beh.vsupported >= 0 && beh.vsupported != beh.supported {
+        match guarded(|| PCx::<A>::trim(&pp, beh.vsupported as usize, beh.hiding.max(0) as usize, bounds.as_deref())) {
+            Out::Ok((_, v2)) => vk = v2,
+            o => {
+                obs.trim = o.class().into();
+                obs.detail = format!("second trim (verifier side): {}", o.detail());
+                return obs;
+            }
+        }
+    }
     if want_digests {
         obs.digests.push(("ck".into(), dig(&|b| ck.serialize_compressed(b).unwrap())));
         obs.digests.push(("vk".into(), dig(&|b| vk.serialize_compressed(b).unwrap())));
